@@ -6,21 +6,35 @@ participation_ratio.
 
 Facets
   lennard_jones / inverse_power_law / harmonic_hertz   (full pipeline, one per potential)
-      "separated" configurations (blob of 4..14 jittered lattice sites, wrapped through the cell faces, optional
-      lattice-image offsets), 2D/3D, K = 1..3 species, equal and UNEQUAL masses, symmetric float parameter matrices,
-      shift on/off, periodicity masks, orthogonal and (fully periodic) tilted cells.  Oracles:
+      Two geometries.  "blob": 1..14 jittered lattice sites placed anywhere in a cell wider than the blob + r_c, wrapped
+      through the faces, optional lattice-image offsets.  "filled" (round 3): the lattice FILLS the periodic cell (edge k =
+      n_k sites; every site or a random subset, N <= 36), so every particle has its shell and pairs interact through every
+      face.  2D/3D, K = 1..4 species, equal and UNEQUAL masses, symmetric parameter matrices, shift on/off (and the
+      default), all periodicity masks; cells: orthogonal, tilted (either sign), tilted slab (xy tilt, open z), and
+      "general" = a tilted cell after an axis permutation (cell matrix not lower triangular).  Oracles:
         (a) analytic blocks from sympy-differentiated phi (40 digits) assembled to D = M^-1/2 K M^-1/2, compared
             entrywise with <out>.hessianmatrix.npy under a derived tolerance matrix;
         (b) central finite differences (float64) of the independently coded gradient of U (1e-5 of the term scale);
         (c) four-point second differences of the independently coded ENERGY itself (hand-coded s(r), 60 digits) at
             drawn index pairs;
         symmetry; annihilation of the d mass-weighted uniform translations (full periodicity); evecs are an
-        orthonormal eigenbasis of the saved matrix, omega = sqrt(lambda) for clearly positive lambda, spectrum equals
-        the reference spectrum (Weyl bound); PR in (0,1] and equal to the documented formula on <out>.evecs.npy;
-        file-saving flags and the default output name.
-      Species class (extension 1): K = 2..3 species are DECLARED in the parameter matrices / mass dict but one (sometimes
+        orthonormal eigenbasis of the saved matrix (of the reference matrix when the matrix is not saved), omega =
+        sqrt(lambda) for clearly positive lambda; the multiset of clearly positive omega^2 equals the multiset of clearly
+        positive reference eigenvalues (BOTH directions, Weyl bound); PR in (0,1] and equal to the documented formula on
+        <out>.evecs.npy, or - eigenvectors not saved - on the eigenvectors of the saved matrix for simple eigenvalues;
+        file-saving flags, their documented defaults (keywords omitted), default / dotted / sub-directory output names.
+      Species class (extension 1): K = 2..4 species are DECLARED in the parameter matrices / mass dict but one (sometimes
       two) of them does not occur in the snapshot, preferably not the highest one; the oracle indexes every parameter
       by type id - 1.  Minimal sizes N = 1, 2, 3 are a class of their own.
+      Argument representations (extension 2/3): integer-valued epsilons / sigmas / r_cuts as int64 arrays, masses as
+      Python ints or np.float64, mass-dict keys as np.int64, particle types as int32, ppp as int32, exponents /
+      prefactors (ipl_n, ipl_A, alpha) as Python ints (n also odd); other unit systems (length unit 0.01 .. 100, energy
+      unit 0.0104 / 120, mass unit 1e-3 / 39.948).
+  large_system   (round 3: size-gated paths)
+      filled geometry with N = 99, 100, 101, 102, 128, 129 or every site (121..260), one case in ten (2D) with N = 500,
+      501, 512, 529: beyond the progress-log stride of 100 particles and any plausible chunk size; all three
+      potentials; same oracles.  (Bulk jitter / images of more than 150 particles come from a drawn seed.)
+  huge_system    (thorough tier only)  N = 1000, 1001, 1024.
   call_sequence  (extension 1: state carried between calls)
       ONE HessianMatrix object, 2-3 diagonalize_hessian calls: the same model with a changed ipl_n / ipl_A /
       harmonic_hertz_alpha, model A - model B - model A, free sequences; distinct output names, one name reused, default
@@ -29,19 +43,62 @@ Facets
       Every call's three files are compared with the oracle for that call's parameters and positions.
   pair_matrix
       the pair block as a pure function of (Rji, [s1, s1rc, s2]): s2 u u^T + (s1 - s1rc)(1 - u u^T)/r, and its
-      negative, 2D and 3D, list or array input.
+      negative, 2D and 3D; Rji as list / array / Python ints / int64 array, dudrs as list / tuple / array, other length
+      scales, a second pair evaluated with the same object.
+
+CLAUSES (statement + quantifier, split; tags are the class tags of evidence/C11.json, coverage.facets.*.classes)
+  clause / axis                                   decided by                                   populated classes
+  1 any 2D or 3D configuration                    (a) entrywise, all facets                    d2 d3; geom-blob geom-filled; N<=3 N>=4
+                                                                                               N15-100 N>100 N~500 (N~1000); jittered lattice-exact;
+                                                                                               images in-box; all-interacting some-isolated
+  2 species masses, equal and unequal             (a) + translations                           mass-equal-1 mass-equal-m mass-unequal;
+                                                                                               masses-float -pyint -npfloat; mass-keys-int
+                                                                                               -np.int64; mass-dict-unordered -extra-key;
+                                                                                               mass-scale-small -order-1 -large
+  3 pair parameters (parameter matrices)          (a) (b) (c)                                  K1..K4; eps-int64; sigmas-int64; species-absent-*;
+                                                                                               energy-unit-*; length-unit-int -small -large
+  4 cutoffs                                       (a): blocks outside r_c exactly zero         r_cuts-int64 / -float64; interacting_pairs;
+                                                                                               (pairs within 1e-6 of r_c: never generated)
+  5 periodicity mask                              (a) with the reference minimum image          mask-full mask-partial; cellkind-ortho -tri
+                                                                                               -tri-slab -general; tilt-negative -positive
+                                                                                               -mixed-sign; ppp-int32
+  6 each supported potential                      one facet each                               ipl-n-even -odd -real (-pyint); ipl-A-pyint;
+                                                                                               hertz-alpha-pyint / -float
+  7 force-shifted when shifting is on             (a) (b) (c) use phi with / without the term  shift-on shift-off (default omitted in half
+                                                                                               of shift-on)
+  8 equals ... by analytic and FD derivatives     (a) analytic, (b) FD of gradient, (c) energy  fd-gradient; extra.energy_probes
+  9 symmetric                                     |D - D^T| <= 2T                              every case with the matrix saved
+ 10 annihilates the d translations (full ppp)     |D M^1/2 t_c| <= derived bound               translations-checked
+ 11 frequencies = sqrt(eigenvalues)               WAS one direction (every positive reference  positive_modes_checked,
+                                                  eigenvalue has a row) and nothing about the  positive_rows_matched_back;
+                                                  eigenvectors when the matrix was not saved;  unstable-modes-present;
+                                                  NOW both directions + eigenvectors against   eigenpairs-checked,
+                                                  the reference matrix                         eigenpairs-checked-against-reference
+ 12 participation ratios in (0, 1]                bounds; formula on saved evecs; NEW: formula  files-no-evecs -> pr-from-saved-matrix
+                                                  on eigenvectors of the saved matrix (simple  (extra.pr_checked_without_evecs)
+                                                  eigenvalues) when evecs are not saved
+ 13 observation points (three files, flags)       existence / absence per flag, default name   files-both -no-evecs -no-hessian -default-name
+                                                                                               -kwargs-omitted; name-plain -dotted -subdir
+ 14 (history) one object, several calls           call_sequence                                pattern-*, names-*, positions-mutated-in-place
+ 15 pair block formula                            pair_matrix                                  Rji-list -array -int-list -int-array; dudrs-*
+  Not asserted: what is reported for non-positive eigenvalues; the row order of omega_PR.csv; `<=` vs `<` exactly at
+  the cut-off; asymmetric parameter matrices (no pair energy); parameters mutated in place between calls; the
+  InteractionParams defaults (ipl_A = 0 gives the zero matrix); N above 1024.
 
 Preconditions imposed on the generator (documented domain / what callers pass):
-  * type ids within 1..K (K = number of declared species; in the 'absent' class not all occur); float parameter matrices of shape (K,K), symmetric (hessians.py L149-185);
-    masses dict {type: float > 0};
-  * no pair closer than 0.8 sigma_ab (by construction: lattice spacing minus jitter), no pair within 1e-6 (relative)
-    of its cut-off (by construction: the offending cut-off is nudged), so cut-off membership is unambiguous;
-  * cell: every perpendicular width > 2 max r_c (at most one image of a pair can interact; L279 uses the single
-    minimum image) and > blob diameter + max r_c; tilted cells only with full periodicity (LAMMPS rule);
+  * type ids within 1..K (K = number of declared species; in the 'absent' class not all occur); parameter matrices of shape (K,K), symmetric (hessians.py L149-185);
+    masses dict {type: mass > 0};
+  * no pair closer than 0.8 sigma_ab (by construction: lattice spacing minus jitter; a sheared or axis-permuted lattice
+    keeps its shortest vector), no pair within 1e-6 (relative) of its cut-off (by construction: the offending cut-off is
+    nudged - and then no longer passed as an integer), so cut-off membership is unambiguous;
+  * cell: every perpendicular width > 2 max r_c (any image within r_c then has |fractional component| < 1/2, i.e. it is
+    the one the fractional rounding of L279 selects, for ANY cell matrix); blob geometry: also > blob diameter + max r_c;
+    tilted cells with full periodicity, or xy tilt with an open z boundary (LAMMPS rules);
   * harmonic/Hertz: r_c = sigma (potential defined for r <= sigma), alpha in [2, 3].
 """
 from __future__ import annotations
 
+import dataclasses
 import itertools
 import os
 import warnings
@@ -58,12 +115,15 @@ from ..util import arr, col, columns, require
 
 from PyMatterSim.static.hessians import HessianMatrix, InteractionParams, ModelName
 
-RULE = ("configurations: 4..14 particles on a jittered sub-lattice blob (min distance >= 0.8 sigma_max), placed anywhere "
-        "in an orthogonal or tilted cell (widths > 2 r_c,max), wrapped, optional image offsets; d in {2,3}; K in 1..3; "
-        "masses equal / unequal; symmetric float epsilon, sigma, r_c matrices; LJ, IPL (n in {6,10,12} or real, A), "
-        "harmonic/Hertz (alpha in {2, 2.5} or real, r_c = sigma); shift on/off; all periodicity masks; "
-        "species declared but absent; call sequences on one object. non-trivial = every particle has an interacting "
-        "partner and (>= 2 occurring species with unequal masses, or an absent species below an occurring one)")
+RULE = ("configurations: blob = 1..14 particles on a jittered sub-lattice (min distance >= 0.8 sigma_max) anywhere in a cell "
+        "with widths > 2 r_c,max, wrapped, optional image offsets; filled = the lattice fills the periodic cell (N <= 36; "
+        "facet large_system: N 99..529, huge_system: ~1000); d in {2,3}; K in 1..4; cells orthogonal / tilted (either sign) / tilted slab / "
+        "axis-permuted tilted (general matrix); masses equal / unequal, float / Python int / np.float64; symmetric "
+        "epsilon, sigma, r_c matrices, float64 or integer-valued int64; unit systems (length 0.01..100, energy, mass); "
+        "LJ, IPL (n in {6,7,9,10,12} or real, A; ints or floats), harmonic/Hertz (alpha in {2, 2.5, 3} or real, r_c = "
+        "sigma); shift on/off/default; all periodicity masks; species declared but absent; file flags incl. omitted "
+        "keywords, dotted / sub-directory names; call sequences on one object. non-trivial = every particle has an "
+        "interacting partner and (>= 2 occurring species with unequal masses, or an absent species below an occurring one)")
 ASSUMPTIONS = [
     "specification = truncated pair energy of the documented s(r), force-shifted with the documented cut-off slope when "
     "shifting is on (Hertz: documented slope 0); derivatives by sympy, 40-digit mpmath evaluation (trusted)",
@@ -73,29 +133,39 @@ ASSUMPTIONS = [
     "finite differences: gradient route float64, h = 1e-5 sigma_min, tolerance 1e-5 of the largest pair term, skipped "
     "for non-integer Hertz exponents when a pair is within 3e-3 sigma of contact; energy route 60 digits, h = 1e-12 "
     "sigma_min, tolerance = analytic tolerance + 1e-9 of the largest pair term",
-    "frequencies are only asserted for eigenvalues > 1e-8 ||D|| (the statement defines omega = sqrt(lambda)); what is "
-    "reported for non-positive eigenvalues is not asserted; row order of omega_PR.csv is tied to the columns of "
-    "evecs.npy, not to a sort order",
+    "frequencies: every eigenvalue of the reference matrix > 1e-8 ||D|| + Weyl bound must appear as omega^2 of a row and "
+    "every row with omega^2 above twice that threshold must match an eigenvalue (one-to-one, within the Weyl bound "
+    "||T||_2 + 1e-10 ||D||); what is reported for non-positive eigenvalues is not asserted; row order of omega_PR.csv is "
+    "tied to the columns of evecs.npy, not to a sort order",
+    "eigenvectors not saved: PR is compared only for simple eigenvalues (gap > 1e-6 ||D||) of the saved matrix, with the "
+    "eigenvector perturbation bound 1e-14 dN ||D|| / gap propagated to PR (factor 4 (N+1)); matrix not saved: the saved "
+    "eigenvectors must have residual <= ||T||_2 + 1e-9 ||D|| with the reference matrix",
     "cut-off membership: no generated pair lies within 1e-6 r_c of its cut-off",
     "parameter matrices / mass dict are indexed by type id - 1 (documented: 'for all pairs of particle type', masses "
     "{1: .., 2: ..}) also when a declared species does not occur in the snapshot",
+    "argument representations are value-preserving (asserted in the module): an int64 matrix holds exactly the values "
+    "the oracle uses; integer dtypes are only used for integer-valued parameters",
+    "any invertible cell matrix with perpendicular widths > 2 r_c is in the domain (the routine reads snapshot.hmatrix); "
+    "generated: lower-triangular LAMMPS cells and their axis permutations",
     "call_sequence: the object holds the snapshot by reference; a result must reflect the interaction parameters and "
     "the snapshot contents at the time of the call (an implementation that copied the positions at construction "
-    "would be reported by the in-place class)",
+    "would be reported by the in-place class); parameter arrays are NOT mutated between calls",
 ]
 MANIFEST = {
     "text": ("Generated-configuration differential check of HessianMatrix.diagonalize_hessian / pair_matrix: the saved "
              "dN x dN matrix against an independently coded truncated(-and-force-shifted) pair energy via analytic "
              "blocks (sympy/mpmath, derived entrywise tolerance), finite differences of the reference gradient and "
              "60-digit second differences of the reference energy; symmetry, translation null vectors, eigenbasis / "
-             "frequency / participation-ratio consistency of the three output files; 2D/3D, K = 1..3, equal and "
-             "unequal masses, declared-but-absent species, N = 1..14, three potentials, shift on/off, masks, orthogonal "
-             "and tilted cells; call sequences on one object (changed exponents / prefactors, A-B-A, reused output "
-             "names, positions rewritten in place) (facets: lennard_jones, inverse_power_law, harmonic_hertz, "
-             "call_sequence, pair_matrix)."),
-    "note": ("Sampling, not proof. N <= 14 particles; cells wide enough that a pair interacts through at most one "
+             "frequency (both directions) / participation-ratio consistency of the three output files, also when only "
+             "some of them are saved; 2D/3D, K = 1..4, equal and unequal masses, declared-but-absent species, N = 1..36 "
+             "(blob in a large cell, or a lattice filling the periodic cell) and 99..529 (thorough: 1024), three potentials, shift "
+             "on/off/default, masks, orthogonal / tilted / slab / axis-permuted cells, integer-typed and rescaled "
+             "parameters, omitted keywords and dotted output names; call sequences on one object (changed exponents / "
+             "prefactors, A-B-A, reused output names, positions rewritten in place) (facets: lennard_jones, "
+             "inverse_power_law, harmonic_hertz, large_system, huge_system, call_sequence, pair_matrix)."),
+    "note": ("Sampling, not proof. N <= 260 particles; cells wide enough that a pair interacts through at most one "
              "image; pairs within 1e-6 of a cut-off are not generated; Hertz only with r_c = sigma. Trusted base: "
-             "sympy, mpmath, numpy.linalg.eigvalsh."),
+             "sympy, mpmath, numpy.linalg.eigh / eigvalsh."),
     "technique": ("property-based testing (Hypothesis): reference-model differential (independent energy -> analytic "
                   "and finite-difference Hessian) + algebraic invariants (symmetry, null space, eigen-decomposition)"),
 }
@@ -153,13 +223,14 @@ def species_st(draw, N, K):
 
 
 def _model_params(draw):
-    n = draw(st.sampled_from([6, 10, 12, 10.0, 12.0])) if draw(st.integers(0, 3)) else draw(fl(4.0, 14.0))
-    A = draw(st.one_of(st.just(1.0), nice_float(0.5, 3.0)))
-    alpha = draw(st.sampled_from([2.0, 2.5, 2.0, 2.5, 3.0])) if draw(st.integers(0, 3)) else draw(fl(2.0, 3.0))
+    # exponents / prefactors as callers write them: Python ints (ipl_n=10, also odd 7, 9), floats, arbitrary reals
+    n = draw(st.sampled_from([6, 10, 12, 10.0, 12.0, 7, 9])) if draw(st.integers(0, 3)) else draw(fl(4.0, 14.0))
+    A = draw(st.one_of(st.just(1.0), st.sampled_from([1, 2]), nice_float(0.5, 3.0)))
+    alpha = draw(st.sampled_from([2.0, 2.5, 2, 2.5, 3.0, 3])) if draw(st.integers(0, 3)) else draw(fl(2.0, 3.0))
     return {"n": n, "A": A, "alpha": alpha}
 
 
-FILES = ["both", "both", "both", "both", "no-evecs", "no-hessian", "default-name"]
+FILES = ["both", "both", "both", "both", "no-evecs", "no-hessian", "default-name", "kwargs-omitted"]
 
 
 def _steps(draw, base, two_positions):
@@ -195,7 +266,7 @@ def _steps(draw, base, two_positions):
     names = draw(st.sampled_from(["distinct", "same", "same", "default"]))
     cur = 0
     for k, stp in enumerate(steps):
-        stp["files"] = draw(st.sampled_from(FILES[:6])) if names != "default" else "default-name"
+        stp["files"] = draw(st.sampled_from(FILES[:6] + ["kwargs-omitted"])) if names != "default" else "default-name"
         stp["out"] = {"distinct": f"c11seq{k}", "same": "c11seq", "default": ""}[names]
         if two_positions and k and draw(st.booleans()):
             cur = 1 - cur
@@ -205,22 +276,72 @@ def _steps(draw, base, two_positions):
     return steps, pattern, names
 
 
+def _int_sym(draw, K, lo_of, hi_of):
+    m = np.zeros((K, K))
+    for a in range(K):
+        for b in range(a, K):
+            m[a, b] = m[b, a] = float(draw(st.integers(int(lo_of(a, b)), int(hi_of(a, b)))))
+    return m
+
+
+def _tilt_fractions(draw, d, cellkind):
+    """Tilt factors as fractions of the edge they lean along, either sign, |t| <= 1/2 (LAMMPS convention)."""
+    t = np.zeros((d, d))
+    if cellkind == "ortho":
+        return t
+    t[1, 0] = draw(fl(-0.5, 0.5))
+    if d == 3 and cellkind != "tri-slab":       # slab: periodic in x, y (tilt xy), open in z (xz = yz = 0)
+        t[2, 0] = draw(fl(-0.5, 0.5))
+        t[2, 1] = draw(fl(-0.5, 0.5))
+    if not t.any():
+        t[1, 0] = draw(st.sampled_from([0.3, -0.3]))
+    return t
+
+
+def _cell_matrix(L, t):
+    Hm = np.diag(np.asarray(L, dtype=float))
+    d = len(L)
+    Hm[1, 0] = t[1, 0] * L[0]
+    if d == 3:
+        Hm[2, 0] = t[2, 0] * L[0]
+        Hm[2, 1] = t[2, 1] * L[1]
+    return Hm
+
+
 @st.composite
-def case_st(draw, model=None, seq=False):
+def case_st(draw, model=None, seq=False, size="small"):
     if model is None:
         model = draw(st.sampled_from(MODELS))
+    large = size in ("large", "huge")
     d = draw(st.sampled_from([2, 3]))
-    K = draw(st.sampled_from([1, 2, 2, 3, 3]))
+    K = draw(st.sampled_from([1, 2, 2, 3, 3, 4]))
     (fa_lo, fa_hi), smin, (c_lo, c_hi) = GEOM[model]
-    unit = draw(st.sampled_from([1.0, 1.0, 0.7, 1.6]))
-    sig = _sym(draw, K, smin, 1.0)
-    sig = sig / sig.max() * unit
+    geometry = "filled" if large else draw(st.sampled_from(["blob", "blob", "blob", "blob", "filled"]))
+    if geometry == "filled" and model != "harmonic_hertz":
+        c_hi = min(c_hi, 1.8 if large else 1.6)      # keeps the neighbour shells (and the 40-digit oracle) affordable
+    # --- length scales.  'int' classes: integer-valued sigma / r_c handed over as int64 arrays (np.array([[1, 2], ..]))
+    lengths_int = draw(st.sampled_from(["none"] * 9 + ["sig", "rc", "both"]))
+    if lengths_int != "none":
+        unit = float(draw(st.sampled_from([1, 2, 4, 10])))
+        sig = _int_sym(draw, K, lambda a, b: np.ceil(smin * unit - 1e-9), lambda a, b: unit)
+        if sig.max() < unit:
+            sig[0, 0] = unit
+        lunit = "int"
+    else:
+        unit = draw(st.sampled_from([1.0, 1.0, 1.0, 0.7, 1.6, 3.405, 0.01, 100.0]))
+        sig = _sym(draw, K, smin, 1.0)
+        sig = sig / sig.max() * unit
+        lunit = "small" if unit < 0.1 else ("large" if unit > 10 else "order-1")
     smax = sig.max()
     if model == "harmonic_hertz":
         rc = sig.copy()
+    elif lengths_int != "none":
+        rc = _int_sym(draw, K, lambda a, b: np.ceil(c_lo * sig[a, b] - 1e-9),
+                      lambda a, b: max(np.ceil(c_lo * sig[a, b] - 1e-9), np.floor(max(c_hi, 2.0) * sig[a, b] + 1e-9)))
     else:
         rc = sig * _sym(draw, K, c_lo, c_hi)
-    eps = _sym(draw, K, 0.5, 2.0, special=(1.0,))
+    eunit = draw(st.sampled_from([1.0, 1.0, 1.0, 0.0104, 120.0]))
+    eps = _sym(draw, K, 0.5, 2.0, special=(1.0,)) * eunit
     # argument representation: integer-valued energy scales handed over as an int64 array (np.array([[1, 2], [2, 1]]));
     # a work array made with zeros_like(epsilons) inherited that dtype and truncated 1/sqrt(m_i m_j) (fix 8de5ede)
     eps_int = draw(st.integers(0, 4)) == 0
@@ -229,64 +350,122 @@ def case_st(draw, model=None, seq=False):
         for a in range(K):
             for b in range(a, K):
                 eps[a, b] = eps[b, a] = float(draw(st.integers(1, 3)))
+        eunit = 1.0
     mmode = draw(st.sampled_from(["unequal", "unequal", "equal-1", "equal-m"])) if K > 1 else \
         draw(st.sampled_from(["equal-1", "equal-m"]))
-    if mmode == "equal-1":
-        masses = np.ones(K)
-    elif mmode == "equal-m":
-        masses = np.full(K, draw(nice_float(0.5, 5.0)))
+    mass_repr = draw(st.sampled_from(["float", "float", "float", "pyint", "npfloat"]))
+    if mass_repr == "pyint":       # masses = {1: 1, 2: 3}: Python ints
+        if mmode == "equal-1":
+            masses = np.ones(K)
+        elif mmode == "equal-m":
+            masses = np.full(K, float(draw(st.integers(2, 5))))
+        else:
+            masses = np.array(draw(st.lists(st.integers(1, 6), min_size=K, max_size=K, unique=True)), dtype=float)
     else:
-        masses = np.array(draw(st.lists(st.integers(5, 50), min_size=K, max_size=K, unique=True)), dtype=float) / 10.0
-    # --- blob of lattice sites
-    a0 = smax * draw(fl(fa_lo, fa_hi))
-    stretch = [0.0, 0.0, 0.03, 0.06] if model == "harmonic_hertz" else [0.0, 0.0, 0.1, 0.25]
-    ak = a0 * (1.0 + np.array([draw(st.sampled_from(stretch)) for _ in range(d)]))
-    bl = [draw(st.integers(2, 4)) for _ in range(d)] if d == 2 else [draw(st.integers(1, 3)) for _ in range(d)]
-    if int(np.prod(bl)) < 4:
-        bl[0], bl[1] = 2, 2
-    sites = np.array(list(itertools.product(*[range(b) for b in bl])), dtype=float)
-    if draw(st.integers(0, 11)) == 0:
-        N = draw(st.integers(1, 3))          # minimal sizes: one particle (no pair), one pair, three
-    else:
-        N = draw(st.integers(4, min(14, len(sites))))
-    order = draw(st.permutations(range(len(sites))))
-    sites = sites[list(order[:N])]
-    jmax = (a0 - DMIN * smax) / (2.0 * np.sqrt(d))
-    jf = draw(st.sampled_from([0.0, 0.3, 1.0, 1.0]))
-    jit = jf * jmax * draw(hnp.arrays(np.float64, (N, d), elements=fl(-1.0, 1.0)))
-    locals_ = [sites * ak + jit]
-    two_positions = seq and draw(st.integers(0, 2)) == 0
-    if two_positions:   # a second configuration of the same particles, written into snapshot.positions in place
-        locals_.append(sites * ak + max(jf, 0.3) * jmax * draw(hnp.arrays(np.float64, (N, d), elements=fl(-1.0, 1.0))))
-    diam = float(np.linalg.norm((np.array(bl) - 1) * ak + 2 * max(jf, 0.3 if two_positions else 0.0) * jmax))
-    # --- cell
+        munit = draw(st.sampled_from([1.0, 1.0, 1.0, 39.948, 1e-3]))
+        if mmode == "equal-1":
+            masses = np.ones(K)
+        elif mmode == "equal-m":
+            masses = np.full(K, draw(nice_float(0.5, 5.0))) * munit
+        else:
+            masses = np.array(draw(st.lists(st.integers(5, 50), min_size=K, max_size=K, unique=True)), dtype=float) / 10.0 * munit
+    # --- periodicity mask and cell kind
     ppp = np.ones(d, dtype=int)
     if draw(st.booleans()):
         ppp = np.array(draw(st.sampled_from(list(itertools.product([0, 1], repeat=d)))), dtype=int)
-    tri = bool(ppp.all()) and draw(st.integers(0, 2)) == 0
-    W = 1.06 * max(2.0 * rc.max(), diam + rc.max())
-    L = W * np.array([draw(st.sampled_from([1.0, 1.0, 1.3, 2.0])) for _ in range(d)])
-    Hm = np.diag(L)
-    if tri:
-        Hm[1, 0] = draw(fl(-0.5, 0.5)) * L[0]
-        if d == 3:
-            Hm[2, 0] = draw(fl(-0.5, 0.5)) * L[0]
-            Hm[2, 1] = draw(fl(-0.5, 0.5)) * L[1]
-        if not np.any(Hm - np.diag(L)):
-            Hm[1, 0] = 0.3 * L[0]
+    cellkind = "ortho"
+    if bool(ppp.all()):
+        cellkind = draw(st.sampled_from(["ortho", "ortho", "ortho", "ortho", "tri", "tri", "general"]))
+    elif d == 3 and tuple(ppp) == (1, 1, 0) and draw(st.booleans()):
+        cellkind = "tri-slab"        # LAMMPS allows xy != 0 with an open z boundary
+    if d == 3 and cellkind == "ortho" and draw(st.integers(0, 11)) == 0:
+        ppp = np.array([1, 1, 0])
+        cellkind = "tri-slab"
+    tfrac = _tilt_fractions(draw, d, cellkind)
+    # --- lattice sites
+    a0 = smax * draw(fl(fa_lo, fa_hi))
+    stretch = [0.0, 0.0, 0.03, 0.06] if model == "harmonic_hertz" else [0.0, 0.0, 0.1, 0.25]
+    ak = a0 * (1.0 + np.array([draw(st.sampled_from(stretch)) for _ in range(d)]))
+    jmax = (a0 - DMIN * smax) / (2.0 * np.sqrt(d))
+    jf = draw(st.sampled_from([0.0, 0.3, 1.0, 1.0]))
+    two_positions = seq and draw(st.integers(0, 2)) == 0
+    if geometry == "blob":
+        bl = [draw(st.integers(2, 4)) for _ in range(d)] if d == 2 else [draw(st.integers(1, 3)) for _ in range(d)]
+        if int(np.prod(bl)) < 4:
+            bl[0], bl[1] = 2, 2
+        sites = np.array(list(itertools.product(*[range(b) for b in bl])), dtype=float)
+        if draw(st.integers(0, 11)) == 0:
+            N = draw(st.integers(1, 3))          # minimal sizes: one particle (no pair), one pair, three
+        else:
+            N = draw(st.integers(4, min(14, len(sites))))
+        order = draw(st.permutations(range(len(sites))))
+        sites = sites[list(order[:N])]
+        lattice = sites * ak
+        diam = float(np.linalg.norm((np.array(bl) - 1) * ak + 2 * max(jf, 0.3 if two_positions else 0.0) * jmax))
+        W = 1.06 * max(2.0 * rc.max(), diam + rc.max())
+        L = W * np.array([draw(st.sampled_from([1.0, 1.0, 1.3, 2.0])) for _ in range(d)])
+        Hm = _cell_matrix(L, tfrac)
         w = perp_widths(Hm).min()
         if w < W:
             Hm = Hm * (W / w * 1.001)
-    lo = np.zeros(d) if draw(st.booleans()) else np.array([draw(nice_float(-20.0, 20.0)) for _ in range(d)])
+    else:
+        # the lattice FILLS the periodic cell (edge k = n_k sites): every particle has its shell, pairs interact through
+        # every face; all sites occupied, or a random subset (vacancies) when there are more sites than the size limit
+        W = 1.06 * 2.0 * rc.max()
+        nk = np.maximum(np.ceil(W / ak), 2).astype(int) + np.array([draw(st.integers(0, 1)) for _ in range(d)])
+        huge = size == "huge" or (large and d == 2 and draw(st.integers(0, 9)) == 7)
+        if size == "huge":                  # ~1000 particles (thorough tier only)
+            nk = np.maximum(nk, 32 if d == 2 else 10)
+        elif huge:                          # ~500 particles (2D: dN ~ 1000)
+            nk = np.maximum(nk, 23)
+        elif large:
+            nk = np.maximum(nk, draw(st.sampled_from([11, 12, 14, 16] if d == 2 else [5, 5, 6])))
+        for _ in range(40):
+            Hm = _cell_matrix(nk * ak, tfrac)
+            if perp_widths(Hm).min() >= W:
+                break
+            nk = nk + 1
+        nsites = int(np.prod(nk))
+        if huge:
+            N = min(nsites, draw(st.sampled_from([1000, 1001, 1024] if size == "huge" else [500, 501, 512, 529])))
+        elif large:
+            N = draw(st.sampled_from([nsites, 101, 129, 128, 102, nsites, 100, 99]))
+            N = min(N, nsites, 260)
+        elif draw(st.integers(0, 11)) == 0:
+            N = draw(st.integers(1, 3))
+        else:
+            N = min(nsites, 36) if draw(st.booleans()) else draw(st.integers(4, min(nsites, 36)))
+        idx = np.array(list(itertools.product(*[range(int(n_)) for n_ in nk])), dtype=float)
+        seed = draw(st.integers(0, 2**32 - 1))
+        pick = np.random.default_rng(seed).permutation(nsites)[:N]       # bulk choice of occupied sites: seeded
+        lattice = (idx[pick] / nk) @ Hm
+    if N > 150:         # bulk displacements from a drawn seed (Hypothesis' choice buffer holds ~1000 floats)
+        bulk = np.random.default_rng(draw(st.integers(0, 2**32 - 1)))
+        unit_box = lambda: bulk.uniform(-1.0, 1.0, (N, d))      # noqa: E731
+    else:
+        bulk = None
+        unit_box = lambda: draw(hnp.arrays(np.float64, (N, d), elements=fl(-1.0, 1.0)))      # noqa: E731
+    jit = jf * jmax * unit_box()
+    locals_ = [lattice + jit]
+    if two_positions:   # a second configuration of the same particles, written into snapshot.positions in place
+        locals_.append(lattice + max(jf, 0.3) * jmax * unit_box())
+    lo = np.zeros(d) if draw(st.booleans()) else np.array([draw(nice_float(-20.0, 20.0)) for _ in range(d)]) * unit
     origin = draw(hnp.arrays(np.float64, (d,), elements=fl(0.0, 1.0, exclude_max=True))) @ Hm
     images = np.zeros((N, d))
     if draw(st.booleans()):
-        images = draw(hnp.arrays(np.int64, (N, d), elements=st.integers(-1, 1))).astype(float) * ppp
+        images = (bulk.integers(-1, 2, (N, d)) if bulk is not None else
+                  draw(hnp.arrays(np.int64, (N, d), elements=st.integers(-1, 1)))).astype(float) * ppp
     pos_list = []
     for local in locals_:
         f = geom.frac_coords(origin + local, Hm)
         f = f - np.floor(f)      # wrapped through every face (also the open ones: then the halves do not interact)
         pos_list.append(lo + (f + images) @ Hm)
+    if cellkind == "general":
+        # a reader-style triclinic cell after an axis permutation (x<->y, cyclic, ...): P H P^T is not lower triangular
+        perm = list(draw(st.permutations(range(d)).filter(lambda p_: list(p_) != list(range(d)))))
+        Hm = Hm[perm][:, perm]
+        lo = lo[perm]
+        pos_list = [p_[:, perm] for p_ in pos_list]
     types, species_tag = draw(species_st(N, K))
     shift = draw(st.integers(0, 9)) % 2 == 0
     # --- keep every pair clear of its cut-off (construction, not rejection)
@@ -305,6 +484,8 @@ def case_st(draw, model=None, seq=False):
             if model == "harmonic_hertz":
                 sig[a_, b_] = sig[b_, a_] = rc[a_, b_]
         nudges += 1
+    if nudges:
+        lengths_int = "none"          # a nudged cut-off is no longer an integer
     if seq:
         steps, pattern, names = _steps(draw, model, two_positions)
     else:
@@ -312,9 +493,19 @@ def case_st(draw, model=None, seq=False):
         steps = [{"model": model, **_model_params(draw), "files": files,
                   "out": "" if files == "default-name" else "c11out", "pos": 0}]
         pattern, names = "single", "single"
+    if draw(st.integers(0, 3)) == 0:       # output names with dots / in a sub-directory: '<outputfile>.hessianmatrix.npy'
+        style = draw(st.sampled_from(["dotted", "dotted", "subdir"]))
+        for stp in steps:
+            if stp["out"]:
+                stp["out"] = stp["out"].replace("c11", "c11.r1." if style == "dotted" else "c11dir/r.1/")
     probes = [(draw(st.integers(0, N * d - 1)), draw(st.integers(0, N * d - 1))) for _ in range(3 if not seq else 1)]
-    return {"base": model, "d": d, "K": K, "H": Hm, "lo": lo, "tri": tri, "pos_list": pos_list, "types": types,
+    return {"base": model, "d": d, "K": K, "H": Hm, "lo": lo, "tri": cellkind != "ortho", "cellkind": cellkind,
+            "geometry": geometry, "pos_list": pos_list, "types": types,
             "ppp": ppp, "eps": eps, "eps_int": eps_int, "sig": sig, "rc": rc, "masses": masses, "mmode": mmode, "steps": steps,
+            "lengths_int": lengths_int, "mass_repr": mass_repr, "lunit": lunit, "eunit": eunit,
+            "mass_keys": draw(st.sampled_from(["int", "int", "np.int64"])),
+            "types_dtype": draw(st.sampled_from(["int64", "int64", "int32"])),
+            "ppp_dtype": draw(st.sampled_from(["int64", "int64", "int32"])),
             # the masses dictionary is looked up by type id: its insertion order carries no meaning (seeded C11-C took
             # the t-th inserted value for type t) and it may hold types that do not occur in the system
             "mass_order": list(draw(st.permutations(range(K)))) if draw(st.booleans()) else list(range(K)),
@@ -336,14 +527,25 @@ def interaction_params(case):
 
 
 def make_hessian(case):
-    cell = {"H": case["H"], "lo": case["lo"], "kind": "tri" if case["tri"] else "ortho"}
+    kind = case.get("cellkind") or ("tri" if case["tri"] else "ortho")
+    cell = {"H": case["H"], "lo": case["lo"], "kind": {"tri-slab": "tri"}.get(kind, kind)}
     snap = snapshot_from(cell, case["pos_list"][0].copy(), case["types"])
-    masses = {k + 1: float(case["masses"][k]) for k in case.get("mass_order", range(len(case["masses"])))}
+    if case.get("types_dtype", "int64") == "int32":
+        snap = dataclasses.replace(snap, particle_type=snap.particle_type.astype(np.int32))   # same arrays otherwise
+    as_key = np.int64 if case.get("mass_keys") == "np.int64" else int       # dict(zip(np.unique(types), [...]))
+    as_val = {"pyint": lambda x: int(round(x)), "npfloat": np.float64}.get(case.get("mass_repr"), float)
+    masses = {as_key(k + 1): as_val(case["masses"][k]) for k in case.get("mass_order", range(len(case["masses"])))}
     if case.get("mass_extra"):
         masses[len(case["masses"]) + 1] = float(case["mass_extra"])      # a species the system does not contain
+    li = case.get("lengths_int", "none")
     eps = case["eps"].astype(np.int64) if case.get("eps_int") else case["eps"].copy()
-    kw = dict(snapshot=snap, masses=masses, epsilons=eps, sigmas=case["sig"].copy(),
-              r_cuts=case["rc"].copy(), ppp=case["ppp"].copy())
+    sig = case["sig"].astype(np.int64) if li in ("sig", "both") else case["sig"].copy()
+    rc = case["rc"].astype(np.int64) if li in ("rc", "both") else case["rc"].copy()
+    assert np.array_equal(eps, case["eps"]) and np.array_equal(sig, case["sig"]) and np.array_equal(rc, case["rc"]), \
+        "generator: an integer-typed parameter matrix does not hold the oracle's values"
+    assert all(float(masses[k + 1]) == float(case["masses"][k]) for k in range(len(case["masses"]))), "generator: masses"
+    kw = dict(snapshot=snap, masses=masses, epsilons=eps, sigmas=sig, r_cuts=rc,
+              ppp=case["ppp"].astype(np.int32) if case.get("ppp_dtype") == "int32" else case["ppp"].copy())
     if not (case["shift"] and case["default_shift"]):
         kw["shiftpotential"] = case["shift"]        # documented default: True
     return HessianMatrix(**kw), snap
@@ -357,7 +559,9 @@ def params_of(case):
 def brief(case):
     return {"model": case["model"], "step": case.get("step", 0), "sequence": case.get("sequence"), "d": case["d"], "N": int(len(case["types"])), "K": case["K"],
             "types": np.asarray(case["types"]).tolist(), "masses": np.asarray(case["masses"]).tolist(),
-            "shift": case["shift"], "ppp": np.asarray(case["ppp"]).tolist(), "tri": case["tri"],
+            "shift": case["shift"], "ppp": np.asarray(case["ppp"]).tolist(), "cell": case.get("cellkind") or ("tri" if case["tri"] else "ortho"),
+            "geometry": case.get("geometry", "blob"), "int-typed": [k for k, f in (("eps", case.get("eps_int")), ("sig", case.get("lengths_int") in ("sig", "both")),
+                                                                  ("rc", case.get("lengths_int") in ("rc", "both")), ("masses", case.get("mass_repr") == "pyint")) if f],
             "n": case["n"], "A": case["A"], "alpha": case["alpha"]}
 
 
@@ -393,6 +597,8 @@ def check(case):
     h, snap = make_hessian(case)
     stems = {(st_["out"] or st_["model"]) for st_ in case["steps"]}
     for stem in stems:                  # the scratch cwd is shared by the cases of one worker
+        if os.path.dirname(stem):
+            os.makedirs(os.path.dirname(stem), exist_ok=True)
         for suffix in (".hessianmatrix.npy", ".evecs.npy", ".omega_PR.csv"):
             if os.path.exists(stem + suffix):
                 os.remove(stem + suffix)
@@ -409,7 +615,7 @@ def check(case):
              "sequence": seq if len(seq) > 1 else None}
         info = _one_call(c, h, snap, written)
         nontrivial = nontrivial and info["nontrivial"]
-        tags += info["tags"] if k == 0 else [t for t in info["tags"] if t.startswith(("files-", "fd-", "eigen"))]
+        tags += info["tags"] if k == 0 else [t for t in info["tags"] if t.startswith(("files-", "fd-", "eigen", "pr-"))]
         for key, val in info["extra"].items():
             extra[key] = extra.get(key, 0) + val
     if len(case["steps"]) > 1:
@@ -448,8 +654,13 @@ def _one_call(case, h, snap, written):
     files = case["files"]
     out = case["out"]
     stem = out or case["model"]
-    kw = dict(interaction_params=interaction_params(case), saveevecs=files != "no-evecs",
-              savehessian=files != "no-hessian")
+    if files == "kwargs-omitted":       # documented defaults: saveevecs=True, savehessian=False
+        kw = dict(interaction_params=interaction_params(case))
+    else:
+        kw = dict(interaction_params=interaction_params(case), saveevecs=files != "no-evecs",
+                  savehessian=files != "no-hessian")
+    save_h = files not in ("no-hessian", "kwargs-omitted")
+    save_v = files != "no-evecs"
     if out:
         kw["outputfile"] = out
     f_h, f_v, f_c = (f"{stem}.hessianmatrix.npy", f"{stem}.evecs.npy", f"{stem}.omega_PR.csv")
@@ -459,12 +670,13 @@ def _one_call(case, h, snap, written):
     require(ret is None, f"diagonalize_hessian returned {type(ret).__name__}, documented: None")
     require(np.array_equal(snap.positions, pos0), "diagonalize_hessian modified the snapshot positions")
     require(os.path.exists(f_c), f"{f_c} was not written (files in cwd: {sorted(os.listdir('.'))})")
-    for fn, flag, lab in ((f_h, files != "no-hessian", "savehessian"), (f_v, files != "no-evecs", "saveevecs")):
+    dflt = " (keyword omitted: documented default)" if files == "kwargs-omitted" else ""
+    for fn, flag, lab in ((f_h, save_h, "savehessian"), (f_v, save_v, "saveevecs")):
         if flag:
-            require(os.path.exists(fn), f"{lab}=True but {fn} is missing")
+            require(os.path.exists(fn), f"{lab}=True{dflt} but {fn} is missing (files in cwd: {sorted(os.listdir('.'))})")
         elif fn not in written:         # an earlier call of this case may legitimately have left it there
-            require(not os.path.exists(fn), f"{lab}=False but {fn} was written")
-    written.update(fn for fn, flag in ((f_h, files != "no-hessian"), (f_v, files != "no-evecs")) if flag)
+            require(not os.path.exists(fn), f"{lab}=False{dflt} but {fn} was written")
+    written.update(fn for fn, flag in ((f_h, save_h), (f_v, save_v)) if flag)
 
     par = params_of(case)
     ref = hessref.analytic(case["pos"], case["H"], case["ppp"], case["types"], par)
@@ -483,7 +695,30 @@ def _one_call(case, h, snap, written):
             "mass-dict-unordered" if case.get("mass_order", []) != sorted(case.get("mass_order", [])) else "mass-dict-ordered",
             "mass-dict-extra-key" if case.get("mass_extra") else "mass-dict-exact", "images" if case["images"] else "in-box",
             "lattice-exact" if case["jf"] == 0 else "jittered", case["species"],
-            "N<=3" if N <= 3 else "N>=4", "eps-int64" if case.get("eps_int") else "eps-float64"]
+            "N<=3" if N <= 3 else ("N>=4" if N <= 14 else ("N15-100" if N <= 100 else ("N>100" if N <= 300 else ("N~500" if N < 900 else "N~1000")))),
+            "eps-int64" if case.get("eps_int") else "eps-float64"]
+    kind = case.get("cellkind") or ("tri" if case["tri"] else "ortho")
+    li = case.get("lengths_int", "none")
+    off = case["H"] - np.diag(np.diag(case["H"]))
+    n_ = case["n"]
+    tags += ["cellkind-" + kind, "geom-" + case.get("geometry", "blob"),
+             "sigmas-int64" if li in ("sig", "both") else "sigmas-float64",
+             "r_cuts-int64" if li in ("rc", "both") else "r_cuts-float64",
+             "masses-" + case.get("mass_repr", "float"), "mass-keys-" + case.get("mass_keys", "int"),
+             "types-" + case.get("types_dtype", "int64"), "ppp-" + case.get("ppp_dtype", "int64"),
+             "length-unit-" + case.get("lunit", "order-1"),
+             "energy-unit-" + ("1" if case.get("eunit", 1.0) == 1.0 else ("small" if case.get("eunit", 1.0) < 1 else "large")),
+             "mass-scale-" + ("order-1" if 0.05 <= float(np.max(case["masses"])) <= 10 else
+                              ("small" if float(np.max(case["masses"])) < 0.05 else "large")),
+             "name-subdir" if "/" in stem else ("name-dotted" if "." in stem else "name-plain")]
+    if off.any():
+        tags.append("tilt-" + ("negative" if (off <= 0).all() else ("positive" if (off >= 0).all() else "mixed-sign")))
+    if case["model"] == "inverse_power_law":
+        tags.append("ipl-n-" + ("real" if float(n_) != int(n_) else ("odd" if int(n_) % 2 else "even")) +
+                    ("-pyint" if isinstance(n_, (int, np.integer)) else ""))
+        tags.append("ipl-A-pyint" if isinstance(case["A"], (int, np.integer)) else "ipl-A-float")
+    if case["model"] == "harmonic_hertz":
+        tags.append("hertz-alpha-pyint" if isinstance(case["alpha"], (int, np.integer)) else "hertz-alpha-float")
     extra = {"interacting_pairs": int(len(ref.r_in)), "nudged_cutoffs": int(case["nudges"])}
 
     df = pd.read_csv(f_c)
@@ -495,7 +730,7 @@ def _one_call(case, h, snap, written):
             lambda: f"participation ratios outside (0, 1]: min {PR.min()!r} max {PR.max()!r}; {brief(case)}")
 
     D = None
-    if files != "no-hessian":
+    if save_h:
         D = arr(f_h, np.load(f_h), shape=(dN, dN)).astype(float)
         require(np.all(np.isfinite(D)), f"{f_h}: non-finite entries")
         # (a) analytic reference
@@ -554,10 +789,23 @@ def _one_call(case, h, snap, written):
                 lambda: f"positive eigenvalue {miss!r} of the reference matrix has no row with omega = sqrt(lambda) in "
                         f"{f_c}: omega^2 (positive rows) = {have[-8:].tolist()}, reference lambda = {want[-8:].tolist()} "
                         f"(allowed {weyl + 1e-10 * nrm:.3e}); {brief(case)}")
+    # ... and the other direction: a row that reports a clearly positive frequency must BE the square root of an
+    # eigenvalue (sqrt|lambda| for an unstable mode is not)
+    big = np.sort(omega[omega > 0] ** 2)
+    big = big[big > tau + 2.0 * (weyl + 1e-10 * nrm)]
+    if len(big):
+        stray = _unmatched(big, np.sort(lam_ref), weyl + 1e-10 * nrm)
+        require(stray is None,
+                lambda: f"{f_c}: a row reports omega = {np.sqrt(stray)!r} but omega^2 = {stray!r} is not an eigenvalue of the "
+                        f"matrix (one-to-one matching within {weyl + 1e-10 * nrm:.3e}); reference eigenvalues = "
+                        f"{np.sort(lam_ref)[-8:].tolist()} ... {np.sort(lam_ref)[:4].tolist()}; {brief(case)}")
+    nneg = int((lam_ref < -(tau + 2.0 * (weyl + 1e-10 * nrm))).sum())
     tags.append("positive-modes>=half" if npos * 2 >= dN else "positive-modes<half")
+    tags.append("unstable-modes-present" if nneg else "no-unstable-mode")
     extra["positive_modes_checked"] = npos
+    extra["positive_rows_matched_back"] = int(len(big))
 
-    if files != "no-evecs":
+    if save_v:
         V = arr(f_v, np.load(f_v), shape=(dN, dN)).astype(float)
         require(np.all(np.isfinite(V)), f"{f_v}: non-finite entries")
         require(np.abs(V.T @ V - np.eye(dN)).max() <= 1e-8,
@@ -570,7 +818,7 @@ def _one_call(case, h, snap, written):
                         f"{np.nonzero(bad)[0][:5].tolist()}: csv {PR[bad][:5].tolist()} formula {pr_ref[bad][:5].tolist()}; "
                         f"{brief(case)}")
         if D is not None and nrm > 0:
-            lam = np.einsum("ik,ij,jk->k", V, D, V)
+            lam = (V * (D @ V)).sum(axis=0)
             resid = np.abs(D @ V - V * lam[None, :]).max()
             require(resid <= 1e-9 * nrm,
                     lambda: f"{f_v}: columns are not eigenvectors of the saved matrix (max residual {resid:.3e}, "
@@ -580,6 +828,46 @@ def _one_call(case, h, snap, written):
                     lambda: f"omega is not sqrt(eigenvalue) of the saved matrix for the positive modes: worst "
                             f"|omega^2 - lambda| = {np.abs(omega[pos_k] ** 2 - lam[pos_k]).max():.3e}, ||D|| = {nrm:.3e}")
             tags.append("eigenpairs-checked")
+        elif nrm > 0:
+            # the matrix itself was not saved: the eigenvectors must then be eigenvectors of the reference matrix, up to
+            # the allowed deviation E of the library's matrix from it (|E| <= T entrywise, so ||E||_2 <= ||T||_2 = weyl)
+            lam = (V * (Dref @ V)).sum(axis=0)
+            resid = np.sqrt(((Dref @ V - V * lam[None, :]) ** 2).sum(axis=0)).max()
+            require(resid <= weyl + 1e-9 * nrm,
+                    lambda: f"{f_v}: columns are not eigenvectors of M^-1/2 K M^-1/2 of the reference energy (max residual "
+                            f"{resid:.3e}, allowed {weyl + 1e-9 * nrm:.3e}, ||D|| = {nrm:.3e}); {brief(case)}")
+            pos_k = lam > tau + weyl
+            require(np.all(omega[pos_k] > 0) and np.all(np.abs(omega[pos_k] ** 2 - lam[pos_k]) <= weyl + 1e-10 * nrm),
+                    lambda: f"omega is not sqrt(eigenvalue) for the positive modes (matrix not saved; Rayleigh quotients of "
+                            f"the saved eigenvectors with the reference matrix): worst |omega^2 - lambda| = "
+                            f"{np.abs(omega[pos_k] ** 2 - lam[pos_k]).max():.3e}, ||D|| = {nrm:.3e}; {brief(case)}")
+            tags.append("eigenpairs-checked-against-reference")
+    elif D is not None and nrm > 0:
+        # eigenvectors not saved: the participation ratio of a mode with a SIMPLE eigenvalue is still determined by the
+        # saved matrix.  Eigenvector perturbation of a backward-stable symmetric eigensolver: |dv| <= c eps dN ||D|| / gap
+        # (c eps = 1e-14); PR = S^2 / (N Q) with |dS| <= 2 |dv|, |dQ| / Q <= 4 N |dv|  =>  |dPR| / PR <= 4 (N + 1) |dv|.
+        lam_d, V_d = np.linalg.eigh(D)
+        gap = np.full(dN, np.inf)
+        if dN > 1:
+            dl = np.diff(lam_d)
+            gap[:-1] = dl
+            gap[1:] = np.minimum(gap[1:], dl)
+        simple = np.nonzero((gap > 1e-6 * nrm) & (lam_d > tau))[0]
+        nchk = 0
+        for k in simple:
+            rows = np.nonzero(np.abs(omega ** 2 - lam_d[k]) <= 1e-9 * nrm)[0]
+            rows = rows[omega[rows] > 0]
+            if len(rows) != 1:
+                continue
+            dv = 1e-14 * dN * nrm / gap[k]
+            want = hessref.participation_ratio(V_d[:, k].reshape(N, d))
+            require(abs(PR[rows[0]] - want) <= (4.0 * (N + 1) * dv + 1e-9) * want,
+                    lambda: f"eigenvectors not saved: the PR reported for omega = {omega[rows[0]]!r} is {PR[rows[0]]!r}, but the "
+                            f"(simple, gap {gap[k]:.3e}) eigenvalue {lam_d[k]!r} of the saved matrix has an eigenvector with "
+                            f"participation ratio {want!r}; {brief(case)}")
+            nchk += 1
+        extra["pr_checked_without_evecs"] = nchk
+        tags.append("pr-from-saved-matrix" if nchk else "pr-from-saved-matrix-none-simple")
 
     everyone = bool(np.all(ref.coord >= 1))
     tags.append("all-interacting" if everyone else "some-isolated")
@@ -602,28 +890,50 @@ def describe(case):
 
 
 @st.composite
+def _one_block(draw, d):
+    kind = draw(st.sampled_from(["generic", "generic", "axis", "small-component", "integer"]))
+    if kind == "integer":       # h.pair_matrix([1, 3, 2], ...): integer components, as Python ints or an int64 array
+        v = np.array([float(draw(st.integers(-3, 3))) for _ in range(d)])
+        if not v.any():
+            v[draw(st.integers(0, d - 1))] = float(draw(st.sampled_from([-2, 1, 3])))
+        rep = draw(st.sampled_from(["int-list", "int-array", "list", "array"]))
+    else:
+        v = np.array([draw(st.one_of(st.integers(-30, 30).map(lambda k: k / 10.0), fl(-3.0, 3.0))) for _ in range(d)])
+        if kind == "axis":
+            keep = draw(st.integers(0, d - 1))
+            v = np.where(np.arange(d) == keep, v, 0.0)
+        elif kind == "small-component":
+            v[draw(st.integers(0, d - 1))] *= 1e-6
+        if np.linalg.norm(v) < 0.3:
+            v[draw(st.integers(0, d - 1))] = draw(st.sampled_from([-1.0, 0.5, 1.25]))
+        v = v * draw(st.sampled_from([1.0, 1.0, 1.0, 0.01, 100.0]))         # other length units
+        rep = draw(st.sampled_from(["list", "array"]))
+    s = [draw(st.one_of(st.sampled_from([0.0, 1.0, -1.0]), fl(-100.0, 100.0))) for _ in range(3)]
+    return {"v": v, "s": s, "rep": rep, "kind": kind, "dudrs": draw(st.sampled_from(["list", "list", "tuple", "array"]))}
+
+
+@st.composite
 def block_st(draw):
     d = draw(st.sampled_from([2, 3]))
-    kind = draw(st.sampled_from(["generic", "generic", "axis", "small-component"]))
-    v = np.array([draw(st.one_of(st.integers(-30, 30).map(lambda k: k / 10.0), fl(-3.0, 3.0))) for _ in range(d)])
-    if kind == "axis":
-        keep = draw(st.integers(0, d - 1))
-        v = np.where(np.arange(d) == keep, v, 0.0)
-    elif kind == "small-component":
-        v[draw(st.integers(0, d - 1))] *= 1e-6
-    if np.linalg.norm(v) < 0.3:
-        v[draw(st.integers(0, d - 1))] = draw(st.sampled_from([-1.0, 0.5, 1.25]))
-    s = [draw(st.one_of(st.sampled_from([0.0, 1.0, -1.0]), fl(-100.0, 100.0))) for _ in range(3)]
-    return {"d": d, "v": v, "s": s, "as_list": draw(st.booleans()), "kind": kind}
+    first = draw(_one_block(d))
+    out = {"d": d, **first, "as_list": first["rep"].endswith("list")}
+    if draw(st.integers(0, 2)) == 0:
+        out["second"] = draw(_one_block(d))         # another pair evaluated with the SAME HessianMatrix object
+    return out
 
 
-def check_block(case):
-    d, v = case["d"], case["v"]
-    s1, s1rc, s2 = case["s"]
-    h = HessianMatrix(snapshot=None, masses={1: 1.0}, epsilons=np.ones((1, 1)), sigmas=np.ones((1, 1)),
-                      r_cuts=np.ones((1, 1)), ppp=np.ones(d, dtype=int))
-    Rji = v.tolist() if case["as_list"] else v.copy()
-    out = h.pair_matrix(Rji, [s1, s1rc, s2])
+def _check_one_block(h, d, blk, label):
+    v = blk["v"]
+    s1, s1rc, s2 = blk["s"]
+    rep = blk.get("rep") or ("list" if blk.get("as_list") else "array")
+    if rep.startswith("int-"):
+        vi = np.rint(v).astype(np.int64)
+        assert np.array_equal(vi, v), "generator: integer representation of a non-integer vector"
+        Rji = [int(x) for x in vi] if rep == "int-list" else vi
+    else:
+        Rji = v.tolist() if rep == "list" else v.copy()
+    dudrs = {"list": list, "tuple": tuple, "array": lambda x: np.array(x, dtype=float)}[blk.get("dudrs", "list")]([s1, s1rc, s2])
+    out = h.pair_matrix(Rji, dudrs)
     require(isinstance(out, tuple) and len(out) == 2, f"pair_matrix returned {type(out).__name__}, expected a pair")
     Bi = arr("dudr2i", out[0], shape=(d, d)).astype(float)
     Bj = arr("dudr2j", out[1], shape=(d, d)).astype(float)
@@ -633,33 +943,57 @@ def check_block(case):
     tol = 1e-12 * (abs(s2) + abs(s1 - s1rc) / r) + 1e-300   # floor: the relative term underflows for tiny s
     bad = np.abs(Bi - want) > tol
     require(not bad.any(),
-            lambda: f"pair_matrix block centred on i: got {Bi.tolist()}, want s2 uu^T + (s1-s1rc)(1-uu^T)/r = "
-                    f"{want.tolist()} (tol {tol:.2e}); Rji={v.tolist()} [s1,s1rc,s2]={case['s']}")
-    require(np.array_equal(Bj, -Bi), lambda: f"pair_matrix: block centred on j is not the negative of the block on i: "
+            lambda: f"pair_matrix block centred on i{label}: got {Bi.tolist()}, want s2 uu^T + (s1-s1rc)(1-uu^T)/r = "
+                    f"{want.tolist()} (tol {tol:.2e}); Rji={Rji!r} [s1,s1rc,s2]={blk['s']}")
+    require(np.array_equal(Bj, -Bi), lambda: f"pair_matrix{label}: block centred on j is not the negative of the block on i: "
                                              f"{Bj.tolist()} vs {Bi.tolist()}")
+    if isinstance(Rji, np.ndarray):
+        require(np.array_equal(Rji, v), f"pair_matrix{label} modified its input vector")
     nz = int(np.count_nonzero(v))
-    return {"nontrivial": bool(nz == d and s1 != s1rc and s2 != 0),
-            "tags": [f"d{d}", case["kind"], "list" if case["as_list"] else "array", "s1rc=0" if s1rc == 0 else "s1rc!=0"]}
+    return bool(nz == d and s1 != s1rc and s2 != 0), rep
+
+
+def check_block(case):
+    d = case["d"]
+    h = HessianMatrix(snapshot=None, masses={1: 1.0}, epsilons=np.ones((1, 1)), sigmas=np.ones((1, 1)),
+                      r_cuts=np.ones((1, 1)), ppp=np.ones(d, dtype=int))
+    nt, rep = _check_one_block(h, d, case, "")
+    mag = float(np.abs(case["v"]).max())
+    tags = [f"d{d}", case["kind"], "Rji-" + rep, "dudrs-" + case.get("dudrs", "list"), "s1rc=0" if case["s"][1] == 0 else "s1rc!=0",
+            "length-small" if mag < 0.05 else ("length-large" if mag > 5 else "length-order-1")]
+    if case.get("second"):
+        nt2, rep2 = _check_one_block(h, d, case["second"], " (second pair on the same object)")
+        nt = nt or nt2
+        tags.append("second-call-same-object")
+    return {"nontrivial": nt, "tags": tags}
 
 
 _RULE = ("full pipeline on generated configurations; oracles (a) analytic, (b) FD of gradient, (c) second differences of "
          "the energy, symmetry, translations, spectrum, PR; non-trivial = every particle interacting and (unequal masses "
          "among the occurring species or a declared species absent below an occurring one)")
 FACETS = [
-    Facet("lennard_jones", case_st("lennard_jones"), check, quick=600, thorough=8000, describe=describe, rule=_RULE,
+    Facet("lennard_jones", case_st("lennard_jones"), check, quick=600, thorough=24000, describe=describe, rule=_RULE,
           shards_quick=4),
-    Facet("inverse_power_law", case_st("inverse_power_law"), check, quick=600, thorough=8000, describe=describe,
+    Facet("inverse_power_law", case_st("inverse_power_law"), check, quick=600, thorough=24000, describe=describe,
           rule=_RULE, shards_quick=4),
-    Facet("harmonic_hertz", case_st("harmonic_hertz"), check, quick=600, thorough=8000, describe=describe, rule=_RULE,
+    Facet("harmonic_hertz", case_st("harmonic_hertz"), check, quick=600, thorough=24000, describe=describe, rule=_RULE,
           shards_quick=4),
-    Facet("call_sequence", case_st(None, seq=True), check, quick=240, thorough=6000, describe=describe, shards_quick=4,
+    Facet("call_sequence", case_st(None, seq=True), check, quick=240, thorough=12000, describe=describe, shards_quick=4,
           rule="ONE HessianMatrix object, 2-3 diagonalize_hessian calls: same model with a changed exponent / prefactor, "
                "model A - model B - model A, free; distinct output names, the same name reused, default names; in a "
                "third of the cases a second configuration is written into snapshot.positions in place between calls; "
                "every call's files are compared with the oracle for that call; non-trivial = every particle "
                "interacting and (a same-model parameter change or an in-place position change)"),
-    Facet("pair_matrix", block_st(), check_block, quick=600, thorough=40000,
-          describe=lambda c: {"d": c["d"], "Rji": c["v"].tolist(), "s": c["s"]},
-          rule="Rji in [-3,3]^d (incl. axis-aligned and one tiny component), [s1, s1rc, s2] in [-100,100]^3; "
-               "non-trivial = all components non-zero, s1 != s1rc, s2 != 0"),
+    Facet("large_system", case_st(None, size="large"), check, quick=16, thorough=640, describe=describe, shards_quick=4,
+          quick_budget_s=240.0, thorough_budget_s=1500.0,
+          rule="the lattice fills the periodic cell: N = 99, 100, 101, 102, 128, 129 or every site (up to 260) - beyond the "
+               "progress-log stride of 100 particles and any plausible chunk size; same oracles; non-trivial as above"),
+    Facet("huge_system", case_st(None, size="huge"), check, quick=0, thorough=48, describe=describe,
+          thorough_budget_s=3000.0, shards_thorough=4,
+          rule="thorough tier only: filled geometry with N = 1000, 1001, 1024 (2D 32 x 32, 3D 10 x 10 x 10 sites); same oracles"),
+    Facet("pair_matrix", block_st(), check_block, quick=600, thorough=100000,
+          describe=lambda c: {"d": c["d"], "Rji": c["v"].tolist(), "s": c["s"], "rep": c.get("rep"), "second": bool(c.get("second"))},
+          rule="Rji in [-3,3]^d x {1, 0.01, 100} (incl. axis-aligned, one tiny component, integer components as Python ints / "
+               "int64), [s1, s1rc, s2] in [-100,100]^3 as list / tuple / array; optionally a second pair on the same "
+               "object; non-trivial = all components non-zero, s1 != s1rc, s2 != 0"),
 ]
